@@ -11,7 +11,8 @@ RULE = ("generated IR sets (toggle / non-toggle, separate-swing ids and ordinary
         "bytes, duplicate keys) loaded through the real SwitcherBreezeRemote (a sample through SwitcherBreezeRemoteManager and a temp "
         "JSON) x requests over 2 states x 5 modes x temperatures 0..60 x 4 fan levels x 2 swings x previous {none, on, off}; the "
         "command (payload + length field) must equal the Spec's (specjudge c15: most specific stored key, clamped temperature, "
-        "'off' / toggle prefix rules, refusal of unsupported modes) and the model's; capabilities compared with Spec.c15caps; "
+        "'off' / toggle prefix rules, refusal of unsupported modes) and the model's; capabilities compared with Spec.c15caps; histories of the remote "
+        "manager (database files written, replaced, removed; several managers; get_remote in any order; object identity and a command per answer) against Model.Manager; "
         "non-trivial = distinct (set class, request class, outcome class)")
 ASSUMPTIONS = ["ASCII keys and texts; re.match / str.isdigit modelled for ASCII", "the error message text is only checked to name every supported mode"]
 
@@ -99,7 +100,128 @@ def _impl_caps(a):
 CAPS = C.Kind("capabilities", impl=_impl_caps, model=lambda a: "ircaps " + H.ir_token(a["ir"]),
               judge=lambda a, o: [] if o.startswith("ctor-raise") else [("c15caps " + H.ir_token(a["ir"]), o)],
               classify=lambda a, o: o.split()[0] + (":mgr" if a.get("via_manager") else ""), nontrivial=lambda a, o: o[:80])
-KINDS = {"build_command": BUILD, "build_swing_command": SWING, "capabilities": CAPS}
+# --- the remote manager as a state machine: files written / replaced / removed, several managers, get_remote in any order -----------
+def _mgr_tok(act):
+    k = act[0]
+    if k == "new":
+        return f"new@{act[1]}"
+    if k == "rm":
+        return f"rm@{act[1]}"
+    if k == "wr":
+        return "@".join(["wr", str(act[1])] + [x for key, ir in act[2] for x in (C.ut(key), H.ir_token(ir))])
+    st, md, tt, fan, sw, cur = act[3]
+    return f"get@{act[1]}@{C.ut(act[2])}@{st}@{md}@{tt}@{fan}@{sw}@{cur or '-'}"
+
+
+def _impl_mgr(a):
+    from aioswitcher.api.remotes import SwitcherBreezeRemoteManager
+    from aioswitcher.device import DeviceState, ThermostatFanLevel, ThermostatMode, ThermostatSwing
+    d = tempfile.mkdtemp(dir=C.workdir())
+    path = lambda p: os.path.join(d, f"db{p}.json")          # noqa: E731
+    mgrs, objs, outs = [], [], []
+    try:
+        for act in a["acts"]:
+            k = act[0]
+            if k == "new":
+                mgrs.append(SwitcherBreezeRemoteManager(path(act[1])))
+                outs.append("done")
+            elif k == "rm":
+                if os.path.exists(path(act[1])):
+                    os.unlink(path(act[1]))
+                outs.append("done")
+            elif k == "wr":
+                tmp = path(act[1]) + ".new"                      # replaced the way a careful updater does it: write aside, rename over
+                with open(tmp, "w") as f:
+                    json.dump({key: ir for key, ir in act[2]}, f)
+                os.replace(tmp, path(act[1]))
+                outs.append("done")
+            else:
+                try:
+                    r = mgrs[act[1]].get_remote(act[2])
+                except Exception as e:  # noqa
+                    outs.append("raise " + C.exc_name(e))
+                    continue
+                n = next((i for i, o in enumerate(objs) if o is r), None)
+                if n is None:
+                    objs.append(r)
+                    n = len(objs) - 1
+                caps = (f"obj{n} modes={','.join(m.name for m in r.supported_modes)} min={r.min_temperature} max={r.max_temperature} "
+                        f"toggle={int(r.on_off_type)} sepswing={int(r.separated_swing_command)} id={C.ut(r.remote_id)}")
+                st, md, tt, fan, sw, cur = act[3]
+                try:
+                    c = r.build_command(DeviceState[st], ThermostatMode[md], tt, ThermostatFanLevel[fan], ThermostatSwing[sw],
+                                        None if cur is None else DeviceState[cur])
+                    outs.append(caps + f" | ok {c.command} {c.length}")
+                except Exception as e:  # noqa
+                    outs.append(caps + " | raise " + C.exc_name(e))
+    finally:
+        import shutil
+        shutil.rmtree(d, ignore_errors=True)
+    return " ; ".join(outs)
+
+
+def gen_mgr_history(rng, small=False):
+    ids = rng.sample(["ELEC7022", "DLK10", "X", "ZM079055", "AUX01"], 3)
+    npaths = rng.choice([1, 2, 2, 3])
+    acts, nm = [], 0
+    acts.append(("wr", 0, [(i, G.gen_irset(rng, dense=False)) for i in ids[:rng.randrange(1, 4)]]))
+    for _ in range(rng.randrange(4, 9 if small else 16)):
+        x = rng.random()
+        if nm == 0 or x < 0.15:
+            acts.append(("new", rng.randrange(npaths)))
+            nm += 1
+        elif x < 0.35:
+            db = []
+            for i in ids[:rng.randrange(1, 4)]:
+                ir = G.gen_irset(rng, dense=rng.random() < 0.2)
+                if rng.random() < 0.6:
+                    ir["IRSetID"] = i
+                db.append((i, ir))
+            acts.append(("wr", rng.randrange(npaths), db))
+        elif x < 0.42:
+            acts.append(("rm", rng.randrange(npaths)))
+        else:
+            acts.append(("get", rng.randrange(nm), rng.choice(ids + ["NONE"] if rng.random() < 0.1 else ids), gen_request(rng)))
+    return {"acts": acts}
+
+
+def _shrink_mgr(a):
+    acts = a["acts"]
+    for i in range(len(acts)):
+        if acts[i][0] == "new":          # dropping a manager would renumber the others
+            continue
+        yield {"acts": acts[:i] + acts[i + 1:]}
+
+
+def _judge_mgr(a, out):
+    """Spec (C15) on every answer: the command must be the one `Spec.specCommand` yields for the IR set that the manager's OWN file held
+    under the requested id when this manager first loaded it (plain bookkeeping of the history; no model involved)"""
+    files, paths, loaded, lines = {}, [], {}, []
+    for act, o in zip(a["acts"], out.split(" ; ")):
+        k = act[0]
+        if k == "new":
+            paths.append(act[1])
+        elif k == "rm":
+            files.pop(act[1], None)
+        elif k == "wr":
+            files[act[1]] = dict(act[2])
+        elif o.startswith("obj") and " | " in o:
+            key = (act[1], act[2])
+            if key not in loaded:
+                ir = files.get(paths[act[1]], {}).get(act[2])
+                if ir is None:
+                    lines.append(("c15caps ir=u:2d,0", "a remote was returned for an id the manager's file does not hold: " + o[:60]))
+                    continue
+                loaded[key] = ir
+            lines.append(("c15 " + _tok({"ir": loaded[key], "req": act[3]}), o.split(" | ", 1)[1]))
+    return lines
+
+
+MGR = C.Kind("manager_history", impl=_impl_mgr, judge=_judge_mgr, model=lambda a: "mgr " + " ".join(_mgr_tok(x) for x in a["acts"]),
+             classify=lambda a, o: f"mgr:len{len(a['acts']) // 4 * 4}:raise{min(2, o.count('raise '))}:objs{min(4, len(set(x.split()[0] for x in o.split(' ; ') if x.startswith('obj'))))}",
+             nontrivial=lambda a, o: (tuple(x[0] for x in a["acts"]), o.count("raise"), o.count("obj")),
+             shrink=_shrink_mgr)
+KINDS = {"build_command": BUILD, "build_swing_command": SWING, "capabilities": CAPS, "manager_history": MGR}
 
 
 def gen_request(rng):
@@ -139,6 +261,16 @@ def streams(ctx):
     sw2 = [dict(x, form=rng.choice(["keyword", "positional-shared"])) for x in swings for _ in range(2)]
     rng.shuffle(sw2)
     ctx.run_cases(SWING, "swing-commands-asked-repeatedly-of-one-remote-object", sw2, exhaustive=False, sample_every=max(1, len(sw2) // 2))
+    # the manager as a state machine: database files written aside and renamed over, removed, several managers on one or several
+    # paths, get_remote in any order; every returned object is identified (same object again / a new one) and asked for a command
+    hist = [gen_mgr_history(rng) for _ in range(ctx.n(120, 1500))]
+    # a fixed one first: read, replace the file, same manager again (same object), a NEW manager on the same path (new content)
+    a1, a2 = G.gen_irset(rng, toggle=True, dense=True), G.gen_irset(rng, toggle=False, dense=False)
+    a2["IRSetID"] = a1["IRSetID"]
+    rq = ["ON", "COOL", 24, "LOW", "OFF", "OFF"]
+    hist.insert(0, {"acts": [("wr", 0, [("K", a1)]), ("new", 0), ("get", 0, "K", rq), ("wr", 0, [("K", a2)]), ("get", 0, "K", rq),
+                             ("new", 0), ("get", 1, "K", rq), ("new", 1), ("get", 2, "K", rq), ("rm", 0), ("get", 0, "K", rq), ("get", 1, "Q", rq)]})
+    ctx.run_cases(MGR, "manager-histories-files-replaced-several-managers", hist, exhaustive=False, sample_every=max(1, len(hist) // 3))
     # payload length boundaries: texts whose payload is 5, 15, 16, 17, 255, 256, 257, 2000 bytes
     lens = []
     for n in (1, 5, 11, 12, 13, 251, 252, 253, 1000, 1996, 2000):
